@@ -35,6 +35,13 @@ func main() {
 		os.Exit(98)
 	}
 	sock, script := os.Args[1], os.Args[2]
+	if p := os.Getenv("SIMSH_STARTLOG"); p != "" {
+		// proof that a process was started, independent of the control socket
+		if f, err := os.OpenFile(p, os.O_APPEND|os.O_CREATE|os.O_WRONLY, 0644); err == nil {
+			fmt.Fprintf(f, "%s\n", strings.ReplaceAll(script, "\n", "\\n"))
+			f.Close()
+		}
+	}
 	var conn net.Conn
 	var rd *bufio.Reader
 	if sock != "-" {
